@@ -1158,6 +1158,23 @@ def decision_avoid(ctx, body, is_x, is_y, order):
         if not isinstance(n, tuple):
             return False
         gd = body.guard_of(n[1], n[2])
+        if gd is not None and gd.kind == 'enum' and len(gd.origins) == 1:
+            # `match x.cmp(&y) { Less => .., Equal => .., Greater => .. }`: the ordering decides the arm
+            o = next(iter(gd.origins))
+            if o.kind == 'call' and not o.path and body.calls[o.key].qname in ('std::cmp::Ord::cmp', 'std::cmp::PartialOrd::partial_cmp') and len(body.calls[o.key].args) == 2 \
+                    and body.calls[o.key].qname.endswith('Ord::cmp'):
+                c_ = body.calls[o.key]
+                a = body.orig_operand(c_.args[0])
+                b_ = body.orig_operand(c_.args[1])
+                if is_x(a) and is_y(b_):
+                    want = {'lt': 'Less', 'eq': 'Equal', 'gt': 'Greater'}[order]
+                elif is_y(a) and is_x(b_):
+                    want = {'lt': 'Greater', 'eq': 'Equal', 'gt': 'Less'}[order]
+                else:
+                    return False
+                vs = gd.variants()
+                return vs is not None and want not in vs
+            return False
         if gd is None or gd.kind != 'bool' or len(gd.origins) != 1:
             return False
         o = next(iter(gd.origins))
